@@ -263,8 +263,8 @@ SUBS = [
     Sub("split_exhaustive", judge_split, enum=enum_split, shards_quick=16, shards_thorough=16,
         rule="gen.pre_multisetup and MultiSetup_PreGER.data (also after detrend / decimate / filter) for all 2365 ordered reference subsets of 1..6 channels: "
              "ref[j] is channel ref_ind[j], mov the remaining channels ascending, every sample intact"),
-    Sub("function_cov_mm", _mk("cov_mm", "function"), ms_case("cov_mm"), quick=200, thorough=4000, rule="ssi.SSI_multi_setup + SSI_poles ('cov_mm') at order 2m equal the global system"),
-    Sub("function_dat", _mk("dat", "function"), ms_case("dat"), quick=200, thorough=4000, rule="ssi.SSI_multi_setup + SSI_poles ('dat') at order 2m equal the global system"),
-    Sub("setup_cov_mm", _mk("cov_mm", "setup"), ms_case("cov_mm"), quick=200, thorough=4000, rule="MultiSetup_PreGER + SSIcov_MS: tables at order 2m and mpe(order=2m) equal the global system"),
-    Sub("setup_dat", _mk("dat", "setup"), ms_case("dat"), quick=200, thorough=4000, rule="MultiSetup_PreGER + SSIdat_MS: tables at order 2m and mpe(order=2m) equal the global system"),
+    Sub("function_cov_mm", _mk("cov_mm", "function"), ms_case("cov_mm"), quick=200, thorough=8000, rule="ssi.SSI_multi_setup + SSI_poles ('cov_mm') at order 2m equal the global system"),
+    Sub("function_dat", _mk("dat", "function"), ms_case("dat"), quick=200, thorough=8000, rule="ssi.SSI_multi_setup + SSI_poles ('dat') at order 2m equal the global system"),
+    Sub("setup_cov_mm", _mk("cov_mm", "setup"), ms_case("cov_mm"), quick=200, thorough=8000, rule="MultiSetup_PreGER + SSIcov_MS: tables at order 2m and mpe(order=2m) equal the global system"),
+    Sub("setup_dat", _mk("dat", "setup"), ms_case("dat"), quick=200, thorough=8000, rule="MultiSetup_PreGER + SSIdat_MS: tables at order 2m and mpe(order=2m) equal the global system"),
 ]
